@@ -58,7 +58,7 @@ def run_contracts(modname, names=None, timeout=30, nproc=16):
             elif m:
                 res['verdict'] = 'counterexample'
                 res['message'] = m.group(1)
-                res['call'] = m.group(2)
+                res['call'] = re.sub(r'\s+with crosshair\.patch_to_return\(.*$', '', m.group(2))
             elif 'Not confirmed' in out or 'Unable to meet precondition' in out or out == 'TIMEOUT':
                 res['verdict'] = 'not_confirmed'
                 res['message'] = 'Unable to meet precondition' if 'Unable to meet' in out else (
